@@ -36,7 +36,7 @@ def conformance(chk: Check, docs: list[dict], label: str, use_all: bool = False)
                 fields[n] = [f[0] for f in s["fields"]]
         ev = [{"k": e["k"], "n": e["n"], "o": e.get("o", "none")} for e in r["ev"] if e["k"] in ("enter", "exit")]
         traces.append({"id": r["id"], "order": list(d["order"]), "raw": raw, "cfg": cfg, "doc": {"order": d["order"], "edges": d["edges"]}, "inhcycle": bool(d.get("inhcycle")),
-                       "real": {"ev": ev, "keys": sorted(r["ir"].keys()), "fields": fields}})
+                       "real": {"ev": ev, "keys": sorted(r["ir"].keys()), "fields": fields, "foreign": r.get("foreign", [])}})
     if not traces:
         return {"docs": 0}
     dd = chk.scratch.sub("spconf")
@@ -52,10 +52,14 @@ def conformance(chk: Check, docs: list[dict], label: str, use_all: bool = False)
     ev_ok = sum(1 for v in vs if v["evdiff"] == 0)
     fd_ok = sum(1 for v in vs if not v["fielddiff"])
     design_lost = sum(1 for v in vs if v["designLost"])
+    design_foreign = sum(1 for v in vs if v["designForeign"])
+    fo_ok = sum(1 for v in vs if not v["foreigndiff"])
     not_rest = sum(1 for v in vs if not v["atrest"])
     not_term = sum(1 for v in vs if not v["terminated"])
-    summ = {"docs": len(vs), "call_sequence_identical": ev_ok, "field_sets_identical": fd_ok, "design_predicts_lost_fields": design_lost, "design_not_at_rest": not_rest, "design_not_terminated": not_term}
+    summ = {"docs": len(vs), "call_sequence_identical": ev_ok, "field_sets_identical": fd_ok, "design_predicts_lost_fields": design_lost, "foreign_answers_identical": fo_ok, "design_predicts_foreign_answers": design_foreign, "design_not_at_rest": not_rest, "design_not_terminated": not_term}
     chk.cov.setdefault("schemaparse_conformance", {})[label] = summ
+    for v in [v for v in vs if v["foreigndiff"]][:3]:
+        chk.note_drift(f"SchemaParse.tla vs real parser on {json.dumps(by_id[v['id']]['doc'])[:220]}: names answered with another node's IR differ: model {v['designForeign']} symmetric difference {v['foreigndiff']}")
     bad = [v for v in vs if v["evdiff"] != 0 or v["fielddiff"]]
     for v in bad[:3]:
         t = by_id[v["id"]]
